@@ -304,6 +304,19 @@ class C18(core.Check):
             for x in look:
                 if not (o.isTagEqual(x) == (x.tagName == o.tagName and x.getAttributesDict() == o.getAttributesDict())):
                     return 'isTagEqual does not compare name and attributes only'
+            # ... and on a pool of elements that differ in one respect each (value-less attributes of different names, the same number of
+            # attributes, value-less vs valued, order of the attribute list, tag name), in both directions
+            from AdvancedHTMLParser.Tags import AdvancedTag as T_
+            pool = [T_('input', [('type', 'checkbox'), ('checked', None)]), T_('input', [('type', 'checkbox'), ('disabled', None)]),
+                    T_('div', [('foo', None)]), T_('div', [('bar', None)]), T_('div', [('hidden', None)]), T_('div', [('id', 'a')]),
+                    T_('div', [('foo', '1')]), T_('div', [('foo', None), ('bar', None)]), T_('div', [('id', 'a'), ('class', 'x y')]),
+                    T_('div', [('class', 'x y'), ('id', 'a')]), T_('span', [('id', 'a')]), T_('div', [('id', 'a'), ('title', '')]), T_('div', [('id', 'a'), ('title', None)]),
+                    T_('div', []), T_('div', [('style', 'color: red')]), T_('div', [('style', 'color:red')])]
+            for x in pool:
+                for y in pool:
+                    want = (x.tagName == y.tagName and x.getAttributesDict() == y.getAttributesDict())
+                    if x.isTagEqual(y) != want:
+                        return '%s.isTagEqual(%s) is %s' % (x.getStartTag(), y.getStartTag(), x.isTagEqual(y))
             return None
         failures = []
         roots, kids = forest(case['parents'])
